@@ -84,6 +84,8 @@ unsafe fn insert(e: Entry) {
 
 #[derive(Copy, Clone)]
 pub struct Freed {
+    pub oid: u32,
+    pub kind: u8,
     pub blk: u32,
     pub size: u32,
     pub align: u32,
@@ -93,7 +95,7 @@ pub struct Freed {
 const PEND: usize = 1 << 11;
 thread_local! {
     static LAST: Cell<(usize, usize, usize)> = const { Cell::new((0, 0, 0)) };
-    static PENDING: UnsafeCell<[Freed; PEND]> = const { UnsafeCell::new([Freed { blk: 0, size: 0, align: 0, was_live: false }; PEND]) };
+    static PENDING: UnsafeCell<[Freed; PEND]> = const { UnsafeCell::new([Freed { oid: 0, kind: 0, blk: 0, size: 0, align: 0, was_live: false }; PEND]) };
     static NPEND: Cell<usize> = const { Cell::new(0) };
     static OVERFLOW: Cell<bool> = const { Cell::new(false) };
 }
@@ -116,7 +118,7 @@ unsafe impl GlobalAlloc for Tracker {
                     Some(e) => {
                         let was_live = e.live;
                         e.live = false;
-                        Some(Freed { blk: e.blk, size: l.size() as u32, align: l.align() as u32, was_live })
+                        Some(Freed { oid: e.oid, kind: e.kind, blk: e.blk, size: l.size() as u32, align: l.align() as u32, was_live })
                     }
                     None => None,
                 }
